@@ -86,8 +86,9 @@ function bn.from(v)
       assert(int, 'malformed hexadecimal number')
       local n
       if frac or exp then
-        n = from(16, 2, int, frac, exp)
-        n = bn.tonumber(n) + 0.0 -- force a float
+        -- Lua's own reader rounds hexadecimal floats correctly (once), any mantissa length and exponent
+        n = tonumber((v:gsub('^[-+]', ''))) or bn.tonumber(from(16, 2, int, frac, exp))
+        n = n + 0.0 -- force a float
       else
         n = bn.frombase(int, 16)
       end
